@@ -245,12 +245,15 @@ inductive Op where
   | reset (s : Src) (vrps : List (Net × Nat × Nat))
   | val (net : Net) (path : Option (List Seg))
   | iter (f : Fam)
+  /-- the daemon path: import policy `rpki st ⇒ reject`, `insert_route`, `collect_paths`, API conversion -/
+  | display (st : VState) (net : Net) (path : Option (List Seg))
   deriving Repr, Inhabited
 
 inductive Ob where
   | unvalidated                         -- `validate` returned `None`
   | v (r : Validation)
   | it (l : List (Net × Roa))
+  | api (r : Option (VState × Reason)) (filtered : Bool)   -- what the API shows; did the policy filter
   deriving DecidableEq, Repr, Inhabited
 
 structure Case where
@@ -271,6 +274,12 @@ def step (localAsn : Nat) (t : Table) : Op → Out (Table × Option Ob)
       match t.iter f with
       | .ok l => .ok (t, some (.it l))
       | .panic => .panic
+  | .display st net path =>
+      -- `collect_paths` phase 2 and `Condition::Rpki` both call `validate`; `rpki_validation_to_api`
+      -- maps state and reason one to one; the statement rejects iff the state is the configured one
+      match t.validate localAsn net path with
+      | none => .ok (t, some (.api none false))
+      | some r => .ok (t, some (.api (some (r.state, r.reason)) (decide (r.state = st))))
 
 def runFrom (localAsn : Nat) : Table → List Op → Out (Table × List Ob)
   | t, [] => .ok (t, [])
